@@ -480,7 +480,9 @@ static void run_once(void) {
     int n = TM.n; char msg[400];
     static mref_t mr; static int mr_ok; if (!mr_ok) { mref_compute(&TM, &mr); mr_ok = 1; }
     if (RES.info == 0) {
-        if (RES.wf) { char sig[64]; snprintf(sig, sizeof sig, "C09:wellformed:code%d", RES.wf); mon_viol(sig, "%s", RES.wfmsg); }
+        if (RES.wf) { char sig[64]; snprintf(sig, sizeof sig, "C09:wellformed:code%d", RES.wf); mon_viol(sig, "%s", RES.wfmsg);
+            /* factors that are not well-formed matrices cannot satisfy Pr A Pc = L U either (seeded change C02-4 was reported under C09 only) */
+            mon_viol("C02:malformed-factors", "info=0 but the returned L/U are not well-formed: %s", RES.wfmsg); mon_viol("C01:malformed-factors", "info=0 but the returned L/U are not well-formed: %s", RES.wfmsg); }
         else {
             ldc M[NMAX][NMAX]; ld ratio; permuted_A(RES.A, n, RES.perm_r, RES.perm_c, M);
             if (check_lu_residual(M, RES.Ld, RES.Ud, n, &ratio, msg, sizeof msg)) mon_viol("C02:residual", "%s", msg);
